@@ -141,6 +141,12 @@ def run_property(prop, tier='quick', replay=None):
     known = [k for k in load_known() if k.get('property') == pid and k.get('status') == 'known']
     replay_dir = os.path.join(env.VERIF, 'replays')
     os.makedirs(replay_dir, exist_ok=True)
+    for old_f in os.listdir(replay_dir):           # replay files of earlier runs of this property are stale
+        if old_f.startswith(pid + '-'):
+            try:
+                os.unlink(os.path.join(replay_dir, old_f))
+            except OSError:
+                pass
     os.makedirs(os.path.join(env.VERIF, 'evidence'), exist_ok=True)
 
     def write_replay(tag, payload):
@@ -218,7 +224,7 @@ def run_property(prop, tier='quick', replay=None):
                             exhausted = False
                             return
                         yield c
-                for status, case, res, secs in pool.imap_unordered(_run_one, feed(), chunksize=1):
+                for status, case, res, secs in pool.imap_unordered(_run_one, feed(), chunksize=getattr(prop, 'chunksize', 1)):
                     n_eval += 1
                     if status == 'error':
                         errors.append(dict(case=case, error=res))
@@ -315,7 +321,14 @@ def replay_file(prop, path):
     payload = json.load(open(path))
     if payload.get('kind') == 'bounded':
         env.ensure_repo_importable()
-        res = prop.run_case(payload['case'])
+        global _PROP
+        _PROP = prop
+        status, case, res, secs = _run_one(payload['case'])
+        if status == 'error':
+            print('CHECK-ERROR while replaying: %s' % res)
+            return 3
+        if status == 'raised-in-repo':
+            res = [('completes-without-error', False, dict(exception=res.splitlines()[0]))]
         bad = [(c, d) for c, ok, d in res if not ok]
         print(json.dumps(jsonable(dict(case=payload['case'], failing_clauses=bad)), indent=1, default=str))
         return 1 if bad else 0
